@@ -318,11 +318,17 @@ class Emitter:
                         return rec
         return None
 
+    def canon_lambda(self, rec):
+        cid = getattr(self, 'lambda_canon', {}).get(rec['id'])
+        return self.tu.rec_by_id.get(cid, rec) if cid else rec
+
     def use_record(self, rec, spelled=None):
         rid = rec['id']
         disp = self.tu.rec_name.get(rid, rec.get('name', rid))
         if disp.startswith('lambda_') or (spelled or '').startswith('(lambda'):
-            cn = 'S_lambda_' + rid[-8:]
+            # one closure struct per lambda *source location*: every instantiation of the enclosing template has its own
+            # closure record with the same members; differing capture types would redefine the struct (compile error, exit 2)
+            cn = 'S_lambda_' + self.canon_lambda(rec)['id'][-8:]
         else:
             cn = struct_tag(disp if ('<' in disp or '::' in disp) and '?' not in disp else (spelled or disp))
         if cn in self.struct_defs:
@@ -1609,6 +1615,13 @@ class Emitter:
             raise ExtractError('lambda without closure record')
         self.tu.rec_by_id.setdefault(rec['id'], rec)
         self.tu.rec_name.setdefault(rec['id'], 'lambda_' + rec['id'][-8:])
+        # parameter types name a closure type by its source location "(lambda at f:l:c)", which every instantiation of the
+        # enclosing template shares: use the record that name resolves to as the one struct for this location
+        canon = self.find_lambda(qt(n)) if qt(n).startswith('(lambda') else None
+        if canon is not None and canon['id'] != rec['id']:
+            if not hasattr(self, 'lambda_canon'):
+                self.lambda_canon = {}
+            self.lambda_canon[rec['id']] = canon['id']
         cn = self.use_record(rec)
         fields = [f for f in inner(rec) if f.get('kind') == 'FieldDecl']
         caps = ii[1:len(fields) + 1]
